@@ -542,6 +542,37 @@ func init() {
 		reg(n, nop)
 	}
 	reg("(*sync.Mutex).TryLock", func(fr *frame, args []value) value { return true })
+	// sync.Pool with one goroutine and no garbage collection in between: Get hands back
+	// the most recent Put, else calls New (the case in which pooled state can leak from one
+	// use into the next; a pool may also drop items, which only makes leaks rarer)
+	reg("(*sync.Pool).Put", func(fr *frame, args []value) value {
+		p := args[0].(*value)
+		if it, ok := args[1].(iface); ok && it.t == nil {
+			return nil
+		}
+		if fr.i.pools == nil {
+			fr.i.pools = map[*value][]value{}
+		}
+		fr.i.pools[p] = append(fr.i.pools[p], args[1])
+		return nil
+	})
+	reg("(*sync.Pool).Get", func(fr *frame, args []value) value {
+		p := args[0].(*value)
+		if l := fr.i.pools[p]; len(l) > 0 {
+			x := l[len(l)-1]
+			fr.i.pools[p] = l[:len(l)-1]
+			return x
+		}
+		st := (*p).(structure)
+		newFn := st[len(st)-1] // the New field is the last one
+		if fn, ok := newFn.(*closure); ok && fn != nil {
+			return call(fr.i, fr, 0, fn, nil)
+		}
+		if fn, ok := newFn.(*ssa.Function); ok && fn != nil {
+			return call(fr.i, fr, 0, fn, nil)
+		}
+		return iface{}
+	})
 	for _, ty := range []string{"Int32", "Uint32", "Int64", "Uint64", "Uintptr"} {
 		reg("sync/atomic.Load"+ty, func(fr *frame, args []value) value { return *args[0].(*value) })
 		reg("sync/atomic.Store"+ty, func(fr *frame, args []value) value { *args[0].(*value) = args[1]; return nil })
